@@ -182,14 +182,16 @@ class Gen:
         if u["name"].lower() not in {x["name"].lower() for x in f["units"]}:
             f["units"].append(u)
 
-    def uses(self):
+    def uses(self, own=None):
+        """modules a unit uses; never the module the unit is (or is in): `module mod_a; use mod_a` is not a
+        Fortran program (FORD recurses for ever on it, the same way in every run)"""
         cands = list(self.modnames)
         if not cands:
             return []
         kmax = 3 if self.multi else 1
         k = self.rng.choice([0, 1, 1, kmax, kmax])
         k = min(k, len(cands))
-        us = self.rng.sample(cands, k)
+        us = [u for u in self.rng.sample(cands, k) if own is None or u.lower() != own.lower()]
         if self.multi and self.rng.random() < 0.2:
             us.append("iso_c_binding")
         if self.multi and self.rng.random() < 0.15:
@@ -202,7 +204,7 @@ class Gen:
     def module(self):
         rng = self.rng
         nm = self.name("m", ["mod_a", "mod_b"]) if (not self.clean and rng.random() < 0.08) else self.fresh("m")
-        m = {"kind": "module", "name": nm, "uses": self.uses(), "vars": [], "types": [], "procs": [], "ifaces": [],
+        m = {"kind": "module", "name": nm, "uses": self.uses(own=nm), "vars": [], "types": [], "procs": [], "ifaces": [],
              "includes": []}
         for _ in range(rng.choice([0, 1, 2])):
             m["vars"].append(self.varname())
@@ -296,7 +298,7 @@ class Gen:
              "name": self.name("p", ["foo", "bar", "init", "Foo"]),
              "args": [self.varname() for _ in range(rng.choice([0, 1, 2]))],
              "locals": [self.varname() for _ in range(rng.choice([0, 1]))],
-             "uses": self.uses() if (toplevel or rng.random() < 0.25) else [], "renames": [],
+             "uses": self.uses(own=mod) if (toplevel or rng.random() < 0.25) else [], "renames": [],
              "calls": [], "links": [], "internal": None}
         p["args"] = list(dict.fromkeys(p["args"]))
         p["locals"] = [v for v in dict.fromkeys(p["locals"]) if v not in p["args"] and v != p["name"]]
